@@ -315,16 +315,36 @@ def judge_in_group(case) -> Verdict:
     for m in members + [x]:
         _valid_member(m, platform)
     head = ("object-group network " if platform == "ios" else "object-group ip address ") + "GRP"
-    body = [member_text(m, platform, i) for i, m in enumerate(members)]
-    grp = AddrGroup(head + "\n" + "\n".join(" " + s for s in body), platform=platform)
-    if len(grp.items) != len(members):
-        v = Verdict()
-        v.fail("group:member-lost-on-construction", {"text": head + " / " + " / ".join(body), "items": [o.line for o in grp.items]})
-        return v
-    xo = AddressAg(member_text(x, platform, case.get("sx", 0)), platform=platform)
-    want = any(R.pair_contains(m, x) for m in members)
-    got = xo in grp
+    seqs = case.get("seqs") or [0]
+    if any(not isinstance(q, int) or not 0 <= q <= 1000 for q in seqs + [case.get("xseq", 0)]):
+        raise Invalid()
+    body = [member_text(m, platform, i, seqs[i % len(seqs)]) for i, m in enumerate(members)]
     v = Verdict()
+    if case.get("detach") is not None and all(m[1] != R.ALL1 for m in members + [x]):
+        # the group is made from objects the caller keeps; the group is moved to the other platform and back; the
+        # caller re-addresses one of the objects it kept and asks whether that one is in the group
+        objs = [AddressAg(t, platform=platform) for t in body]
+        grp = AddrGroup(name="GRP", items=list(objs), platform=platform)
+        other = "ios" if platform == "nxos" else "nxos"
+        grp.platform = other
+        grp.platform = platform
+        xo = objs[case["detach"] % len(objs)]
+        # (the kept object may have been left on either platform by the round trip: it is re-addressed in the
+        # syntax of the platform it reports, then brought to the group's platform)
+        xo.line = member_text(x, xo.platform, case.get("sx", 0))
+        if xo.platform != platform:
+            xo.platform = platform
+        now = [R.read_member(o.line, platform)[1] for o in grp.items]
+        want = any(R.pair_contains(m, x) for m in now)
+        v.label("kept-object-after-platform-round-trip")
+    else:
+        grp = AddrGroup(head + "\n" + "\n".join(" " + s for s in body), platform=platform)
+        if len(grp.items) != len(members):
+            v.fail("group:member-lost-on-construction", {"text": head + " / " + " / ".join(body), "items": [o.line for o in grp.items]})
+            return v
+        xo = AddressAg(member_text(x, platform, case.get("sx", 0), case.get("xseq", 0)), platform=platform)
+        want = any(R.pair_contains(m, x) for m in members)
+    got = xo in grp
     if bool(got) != want:
         v.fail(f"group:{'missed' if want else 'false'}-membership", {"group": grp.line, "member": xo.line, "library": got,
                                                                     "oracle": want})
@@ -342,7 +362,14 @@ def in_group_st(draw, tier):
         members = [m for m in members if m[1] != R.ALL1] or [[R.ip2int("10.0.0.0"), 255]]
         if x[1] == R.ALL1:
             x = [x[0], 0]
-    return {"platform": platform, "members": members, "x": x, "sx": draw(st.integers(0, 1))}
+    case = {"platform": platform, "members": members, "x": x, "sx": draw(st.integers(0, 1))}
+    if platform == "nxos" and draw(st.booleans()):
+        # numbered members; the asked member carries a number too (often one that is used inside the group)
+        case["seqs"] = draw(st.sampled_from([[10, 20, 30, 40, 50], [10], [5, 5, 7], [0, 10]]))
+        case["xseq"] = draw(st.sampled_from([0, 10, 20, 30, 5, 99]))
+    if draw(st.sampled_from(range(5))) == 3:
+        case["detach"] = draw(st.integers(0, 4))
+    return case
 
 
 def judge_readdress(case) -> Verdict:
